@@ -19,7 +19,7 @@ OEO = ("decoy",)   # decoy pre-pass only (engine.safe_check): this check edits i
 VARIANT_SWEEP = True      # thorough tier: every case on every history variant of its array (see mc/domains.py VSHIFT)
 TITLE = "interp_axis is per-fibre linear interpolation"
 RULE = ("product of (float/int arrays 1-4D, interpolated axis at every position, numeric labels increasing / decreasing / every shuffle of "
-        "length 1-4, non-linear cell values) x (new coordinate vectors sorted and unsorted with points below / on / between / above the "
+        "length 1-4, non-linear cell values, also uint8 / float32 data and infinite values at and between nodes) x (new coordinate vectors sorted and unsorted with points below / on / between / above the "
         "labels, empty) x left/right in {default NaN, -1/-2} x issorted in {None, True on increasing axes}; Datasets whose variables "
         "partly lack the axis; interp_like templates; non-trivial = new differs from the axis labels")
 ASSUMPTIONS = ["np.interp on the label-sorted fibre is the oracle (named by the property); rtol 1e-12"]
